@@ -119,7 +119,9 @@ impl Stage for Closest {
             let mut probes = 0u32;
             let n_ops = c.table.ops.len();
             for (n, op) in c.table.ops.iter().enumerate() {
-                it.apply(op).await;
+                if let Applied::Response { id, addr, named, named_addr } = it.apply(op).await {
+                    it.respond(id, addr, named, named_addr);
+                }
                 if (n + 1) % c.every as usize != 0 && n + 1 != n_ops {
                     continue;
                 }
